@@ -40,6 +40,9 @@ inline bool accepts_strict(const Result& r) { return r.ok && !r.bad_surrogate; }
 Fault unescape(const char* p, size_t n, std::string& out, bool* bad_surrogate, size_t* fault_off = nullptr,
                bool open_ended = false);
 
+// number of distinct fault kinds (control byte, unknown escape, malformed \\u, bad surrogate) in a literal body
+int fault_kinds(const char* p, size_t n);
+
 // Canonical JSON text for an MV (Real must be finite).
 std::string write(const MV& v);
 void write_string(const std::string& s, std::string& out);
